@@ -44,3 +44,10 @@ pub open spec fn cexpr_is_effect(e: CExpr) -> bool {
 pub open spec fn cexpr_is_control(e: CExpr) -> bool {
     e is EMatch || e is EIf || e is EWhile
 }
+
+// go::dce::effect_stmt (verified by U-DCEBLK with this contract): the statement that evaluates v and drops its value — the call itself where Go accepts
+// that call as a statement, else `_ = v`
+pub open spec fn eff_stmt_ok(v: Expr, s: Stmt) -> bool {
+    (s == Stmt::Expr(v) && (v is Call || v is Block)) || (s matches Stmt::Assignment { name, value } && name@ == "_"@ && value == v)
+}
+#[verifier::external_body] pub fn effect_stmt(v: Expr) -> (r: Stmt) ensures eff_stmt_ok(v, r) { unimplemented!() }
